@@ -196,8 +196,9 @@ def run(chk, facts):
         loc = facts.loc_of(gd)
         arm = _arm(gd, "Node::FunDef")
         flt = [n for n in walk(arm["body"]) if n.get("k") == "mcall" and n["m"] == "filter" and "fields" in src(n["recv"])]
-        bodies = sorted(src(strip(strip(f["args"][0])["body"])).replace(" ", "") for f in flt)
-        want = sorted(["!parents.iter().any(|p|p.fields.contains(f))", "(!f.ty.is_nullable()&&!f.assigned_to)"])
+        from .common import cond_atoms
+        bodies = sorted(sorted(str(a_) for a_ in cond_atoms(strip(f["args"][0])["body"], "&&")) for f in flt)
+        want = sorted([["!parents.iter().any(|p|p.fields.contains(f))"], sorted(["!f.ty.is_nullable()", "!f.assigned_to"])])
         ok = bodies == want
         chk.ob("R-C06-4", "must-assign-set", ok,
                "must-assign set = own fields not contained (as whole fields) in a parent, non-nullable and without initialiser" if ok else
